@@ -1144,11 +1144,11 @@ class EventType(VersionedOntologyElement, MutableMapping):
              .set_timespan_property_name_end(type_element.attrib.get('timespan-end'))\
              .set_version_property_name(type_element.attrib.get('event-version'))\
              .set_sequence_property_name(type_element.attrib.get('sequence'))
-        except KeyError as e:
+        except (KeyError, ValueError) as e:
             raise EDXMLOntologyValidationError(
                 "Failed to instantiate an event type from the following definition:\n" +
                 etree.tostring(type_element, pretty_print=True, encoding='unicode') +
-                "\nMissing attribute: " + str(e)
+                "\nMissing attribute or illegal value: " + str(e)
             )
 
         property_names = []
